@@ -454,16 +454,16 @@ pub fn agent_run_executable(ctx: &mut Ctx, w: &World, junos: Junos) -> (RunObs, 
         let (jport, jt) = crate::asim::serve_junos_tls(shared.clone(), stop.clone()).map_err(|e| format!("harness: TLS listener: {e}"))?;
         let (iport, it) = crate::irrd::serve_tcp(irr.clone(), stop.clone()).map_err(|e| format!("harness: IRRd listener: {e}"))?;
         let exe = super::c20_agent::agentbin_path();
-        let child = std::process::Command::new(&exe)
-            .env_clear()
+        let mut cmd = std::process::Command::new(&exe);
+        cmd.env_clear()
             .env("RUST_BACKTRACE", "0")
             .args(["-f", "0", "--ephemeral-db", &w.instance, "--irrd-host", "127.0.0.1", "--irrd-port", &iport.to_string()])
             .args(["remote", "--netconf-host", "127.0.0.1", "--netconf-port", &jport.to_string(), "--tls-server-name", "localhost"])
             .args(["--ca-cert-path", &format!("{pki}/ca.crt"), "--client-cert-path", &format!("{pki}/client.crt"), "--client-key-path", &format!("{pki}/client.key")])
             .stdin(std::process::Stdio::null())
             .stdout(std::process::Stdio::null())
-            .stderr(std::process::Stdio::piped())
-            .spawn();
+            .stderr(std::process::Stdio::piped());
+        let child = crate::core::spawn_retry(&mut cmd);
         let mut child = match child {
             Ok(c) => c,
             Err(e) => {
